@@ -9,6 +9,7 @@ CONSTANTS
   MaxBurst = 0
   BurstReps = 1
   Opts = {}
+  Anns = {"adderr", "mapcont"}
   Depth = 1
 INVARIANT Inv
 CONSTRAINT EmitAll
